@@ -48,6 +48,9 @@ class SimFS:
         # of the environment (None: whatever this process has)
         self.locale_encoding = locale_encoding
         self.locale_used = False
+        self.file_type = None   # 'fifo' / 'chr': what stat() says the designated file is
+        self.retype_id = None   # its (st_dev, st_ino)
+        self.retyped = 0
         self.plan = {int(k): v for k, v in (plan or {}).items()}
         self.calls = []
         self.fired = []
@@ -89,14 +92,26 @@ class SimFS:
             f = self._step('lstat', path)
             if f and f['kind'] == 'errno':
                 raise _oserror(f['errno'], os.fspath(path))
-        return self._orig['os.lstat'](path, *a, **kw)
+        return self._retyped(self._orig['os.lstat'](path, *a, **kw))
 
     def _stat(self, path, *a, **kw):
         if self._mine(path):
             f = self._step('stat', path)
             if f and f['kind'] == 'errno':
                 raise _oserror(f['errno'], os.fspath(path))
-        return self._orig['os.stat'](path, *a, **kw)
+        return self._retyped(self._orig['os.stat'](path, *a, **kw))
+
+    def _retyped(self, st):
+        """What kind of file the argument is (as stat reports it) is part of the environment: a named
+        pipe or a character device delivers its text through open/read like a regular file does.
+        Only the type bits of the designated file's stat result change; nothing blocks."""
+        import stat as _stat_mod
+        if self.file_type and self.retype_id == (st.st_dev, st.st_ino) and _stat_mod.S_ISREG(st.st_mode):
+            fields = list(st)
+            fields[0] = (st.st_mode & ~_stat_mod.S_IFMT(st.st_mode)) | {'fifo': _stat_mod.S_IFIFO, 'chr': _stat_mod.S_IFCHR}[self.file_type]
+            self.retyped += 1
+            return os.stat_result(fields)
+        return st
 
     def _readlink(self, path, *a, **kw):
         if self._mine(path):
